@@ -6,3 +6,7 @@ import OsyrisProofs.C09
 #print axioms Osyris.C09.cross3_anticomm
 #print axioms Osyris.C09.dot3_cross3_self
 #print axioms Osyris.C09.lagrange
+#print axioms Osyris.C09.C09_dot_phys
+#print axioms Osyris.C09.C09_cross_phys
+#print axioms Osyris.C09.mul_phys
+#print axioms Osyris.C09.sub_phys
